@@ -83,5 +83,14 @@ Cfg8 ==
      crit |-> [h \in H3 |-> IF h = "h1" THEN TRUE ELSE IF h = "h2" THEN FALSE ELSE c3],
      fails |-> {"h1", "h2"}, plan |-> <<"START_ACTIVITY", "STOP_ACTIVITY">>, bodyfails |-> {}, teardown |-> TRUE, quiet |-> {}, once |-> {}] :
       m \in {"before_START_ACTIVITY", "leave_CONFIGURED"}, c3 \in BOOLEAN }
-CfgAll == Cfg2Valid \cup Cfg3Valid \cup Cfg4 \cup Cfg5 \cup Cfg6 \cup Cfg7
+\* a critical hook failing in the negative half of an enter_ moment: the state has changed, nothing can be cancelled, and the
+\* non-negative half still runs - a hook triggered there, and a call started earlier and awaited there
+Cfg9 ==
+  { [trig |-> [h \in {"h1", "h2"} |-> IF h = "h1" THEN M("enter_RUNNING", -1) ELSE t2],
+     await |-> [h \in {"h1", "h2"} |-> IF h = "h1" THEN M("enter_RUNNING", -1) ELSE M("enter_RUNNING", 0)],
+     crit |-> [h \in {"h1", "h2"} |-> IF h = "h1" THEN TRUE ELSE c2],
+     fails |-> f, plan |-> <<"START_ACTIVITY", "STOP_ACTIVITY">>, bodyfails |-> {}, teardown |-> TRUE, quiet |-> {}, once |-> {}] :
+      t2 \in {M("enter_RUNNING", 0), M("before_START_ACTIVITY", 0), M("leave_CONFIGURED", 0)},
+      c2 \in BOOLEAN, f \in {{"h1"}, {"h1", "h2"}, {}} }
+CfgAll == Cfg2Valid \cup Cfg3Valid \cup Cfg4 \cup Cfg5 \cup Cfg6 \cup Cfg7 \cup Cfg9
 =============================================================================
